@@ -152,3 +152,30 @@ Example C06_outcomes :
      [CRegister (1,1) 10; CRegister (2,1) 11; CExec [xa1]; CRegister (1,1) 12; CExec [xa1; xa2]; CAbort [xb1]]))
   = [((1,1), 10, OSuccess); ((1,1), 12, OFailure); ((2,1), 11, OFailure)].
 Proof. vm_compute. reflexivity. Qed.
+
+(* Composition with C01 (no hypothesis left about the protocol): in every reachable state of the
+   abstract chained / simple HotStuff system (any schedule, <= f Byzantine members), two honest
+   replicas whose execution layer (committer walk + ClientIO, the model above) has committed
+   exactly the blocks of their ledgers — identified by hash, a hash naming one block — have
+   executed prefix-related command sequences and hold prefix-related digests. *)
+From HS Require Protocol.Core Protocol.Chained Protocol.ChainedExec Protocol.ChainedExecProofs Exec.Compose.
+
+Theorem C06_cross_replica_execution_composed :
+  forall rs replicas byz genesis,
+    Protocol.ChainedExec.config_ok replicas byz genesis = true ->
+    forall s, Protocol.Chained.reach rs (Protocol.ChainedExec.member replicas) (Protocol.ChainedExec.honest byz)
+                (Protocol.ChainedExec.qsize replicas) genesis s ->
+    forall i1 i2, Protocol.ChainedExec.honest byz i1 = true -> Protocol.ChainedExec.honest byz i2 = true ->
+    forall ops1 ops2 r1 X1 r2 X2,
+      rrun replica_init ops1 = (r1, X1) -> rrun replica_init ops2 = (r2, X2) ->
+      map b_hash (r_log r1) = map Protocol.Core.b_hash (Protocol.Chained.log (Protocol.Chained.loc genesis s i1)) ->
+      map b_hash (r_log r2) = map Protocol.Core.b_hash (Protocol.Chained.log (Protocol.Chained.loc genesis s i2)) ->
+      (forall x y, In x (r_log r1 ++ r_log r2) -> In y (r_log r1 ++ r_log r2) -> b_hash x = b_hash y -> x = y) ->
+      (prefix X1 X2 /\ prefix (digest (r_cio r1)) (digest (r_cio r2))) \/
+      (prefix X2 X1 /\ prefix (digest (r_cio r2)) (digest (r_cio r1))).
+Proof.
+  intros rs replicas byz genesis Hc s R i1 i2 H1 H2 ops1 ops2 r1 X1 r2 X2 E1 E2 M1 M2 CA.
+  exact (Exec.Compose.exec_prefix_of_ledger_prefix _ _ ops1 ops2 r1 X1 r2 X2 E1 E2 M1 M2 CA
+           (proj1 (Protocol.ChainedExecProofs.reach_safe rs replicas byz genesis Hc s R i1 i2 H1 H2))).
+Qed.
+Print Assumptions C06_cross_replica_execution_composed.
